@@ -16,6 +16,8 @@ import (
 // C13 — ToCSV followed by ReadCSV reproduces the frame.
 
 type rtCase struct {
+	// Rows > 0: generated frame of Rows rows (int id, string s, float f) for the output-size sweep
+	Rows      int         `json:"rows,omitempty"`
 	Frame     model.Frame `json:"frame"`
 	Shape     int         `json:"shape"`
 	Header    bool        `json:"header"`
@@ -85,6 +87,17 @@ func expectedReadBack(f model.Frame, cols []string, emptyNull bool) model.Frame 
 }
 
 func runRTCase(c rtCase) *core.Failure {
+	if c.Rows > 0 {
+		id := model.Col{Name: "id", Kind: model.Int}
+		sc := model.Col{Name: "s", Kind: model.String}
+		fc := model.Col{Name: "f", Kind: model.Float}
+		for r := 0; r < c.Rows; r++ {
+			id.Cells = append(id.Cells, model.I(r))
+			sc.Cells = append(sc.Cells, model.S(strings.Repeat("y", 1+r%4)+","))
+			fc.Cells = append(fc.Cells, model.F(float64(r)/8))
+		}
+		c.Frame = model.Frame{N: c.Rows, Cols: []model.Col{id, sc, fc}}
+	}
 	c.Frame.Fix()
 	qf := model.BuildShape(c.Frame, c.Shape)
 	in := model.Observe(qf)
@@ -234,6 +247,12 @@ func c13Run(ctx *core.Ctx) {
 			})
 		}
 	}
+	// output-size sweep: every row count 1..500 (the writer buffers 4096 bytes)
+	for rows := 1; rows <= 500; rows++ {
+		if ctx.Mine() {
+			exec(rtCase{Rows: rows, Shape: rows % model.NShapes, Header: rows%2 == 0}, "size-sweep")
+		}
+	}
 	// family B: three columns of every type combination, reduced alphabets, every column permutation for the writer
 	perms := [][]int{{0, 1, 2}, {0, 2, 1}, {1, 0, 2}, {1, 2, 0}, {2, 0, 1}, {2, 1, 0}}
 	names := []string{"a", "b", "c"}
@@ -278,7 +297,7 @@ func init() {
 		Level: "model_checking",
 		Rule: "case = (frame, index shape, Header option, Columns order, EmptyNull). Family A: one column of each type (optionally next to an id column), ALL cell sequences of length <= 3 over the per-type alphabets " +
 			"(strings: null, \"\", blanks, quotes, delimiter, LF, invalid UTF-8, \\., \"1\", \"true\"; floats: +-0, subnormal, max, 1e21, 0.1, 2^63, -9.5e18, 2^53+2, +-Inf, NaN; ints: extremes; enums with declared order) x 7 shapes x Header x EmptyNull; " +
-			"family B: every type combination of three columns over reduced alphabets x every Columns permutation x Header x EmptyNull. Oracles: the written bytes parsed by the reference RFC 4180 parser give header + one record per row with the expected cell texts; ReadCSV(bytes, Types/EnumValues/Headers) equals the frame (floats bit-identical, NaN preserved, null -> \"\" or \"\" -> null). All cases are non-trivial; distinct by content.",
+			"size sweep: every row count 1..500 (output across the writer's 4096-byte buffer at every alignment); family B: every type combination of three columns over reduced alphabets x every Columns permutation x Header x EmptyNull. Oracles: the written bytes parsed by the reference RFC 4180 parser give header + one record per row with the expected cell texts; ReadCSV(bytes, Types/EnumValues/Headers) equals the frame (floats bit-identical, NaN preserved, null -> \"\" or \"\" -> null). All cases are non-trivial; distinct by content.",
 		Assumptions: []string{
 			"strings contain no CR (outside the property)",
 			"when EmptyNull is off and an enum column holds nulls, \"\" is added to the enum values declared for reading back (a null is written as an empty field and returns as the value \"\")",
